@@ -47,6 +47,16 @@ type posCase struct {
 	Seed    uint64
 }
 
+// posEras: verification times for the validity conditions. Around them the
+// other certificates' windows (+-100 days) straddle the UTCTime limits.
+var posEras = []time.Time{
+	refInstant,
+	time.Date(1950, 1, 1, 0, 0, 0, 0, time.UTC),
+	time.Date(1950, 12, 31, 23, 59, 59, 0, time.UTC),
+	time.Date(2049, 12, 31, 23, 59, 59, 0, time.UTC),
+	time.Date(2050, 1, 1, 0, 0, 0, 0, time.UTC),
+}
+
 func posName(c posCase) string {
 	switch {
 	case c.K < 0 || c.Pos == c.K+1:
@@ -64,6 +74,11 @@ func checkPosition(c posCase, r *h.Rec) error {
 	r.Label("pos-%s", map[bool]string{true: "violated", false: "control"}[c.Violate])
 	r.Label("pos-family-%d", c.Fam)
 	now := refInstant
+	if c.Cond == pcNotBefore || c.Cond == pcNotAfter {
+		// verification times on both sides of the places where the time encoding changes
+		now = posEras[c.Variant%len(posEras)]
+		r.Label("pos-verification-time-%d", now.Year())
+	}
 	p := &pki{c: chainCase{Seed: c.Seed}, now: now}
 	ktFor := func(i int) int {
 		switch c.Fam {
@@ -317,8 +332,10 @@ func TestC15_ChainPositions(t *testing.T) {
 			}
 			for pos := 0; pos <= last; pos++ {
 				isLeaf := pos == last
-				both(pcNotBefore, k, pos, 0)
-				both(pcNotAfter, k, pos, 0)
+				for era := range posEras {
+					both(pcNotBefore, k, pos, era)
+					both(pcNotAfter, k, pos, era)
+				}
 				both(pcCriticalExt, k, pos, 0)
 				if k < 0 {
 					continue
